@@ -192,7 +192,32 @@ def _c09_loops(o, driver, rng):
 
 PROPERTIES["C09"] = {"run": _sched(_mon("C09"), extra=_c09_loops), "assumptions": SCHED_ASSUME}
 PROPERTIES["C10"] = {"run": _sched(_mon("C10")), "assumptions": SCHED_ASSUME}
-PROPERTIES["C13"] = {"run": _sched(_mon("C13"), faults=True), "assumptions": SCHED_ASSUME}
+def _c13_remote(o, driver, rng):
+    """The same law with the faulty simulator behind the remote transport (subprocess, JSON): a malformed next-step reply of a
+    time-based simulator's first step must abort run() with a SimulationError and the simulator must not be stepped again."""
+    import determinism as dt, sched_corr as scorr
+    n_cases = 6 if o.tier == "quick" else 60
+    kinds = ["float", "float", "str", "negative", "equal", "float_integral", "none"]
+    k = 0
+    while k < n_cases:
+        sc = scorr.gen_scenario(rng, groups=False)
+        tb = [i for i, x in enumerate(sc["sims"]) if x["type"] == "time-based"]
+        if not tb or len(sc["sims"]) > 3:
+            continue
+        for x in sc["sims"]:
+            x.pop("api", None)
+        sc.pop("debug", None)
+        sc["fault"] = {"sim": rng.choice(tb), "n": 0, "kind": kinds[k % len(kinds)]}
+        k += 1
+        outcome, obs = dt.run_remote(sc)
+        steps = obs.get(sc["fault"]["sim"], [])
+        if not outcome.startswith("failed SimulationError") or len(steps) != 1:
+            o.violations.append({"law": "a malformed next-step reply of a remote simulator aborts run() with a SimulationError and the simulator is not stepped again",
+                                 "scenario": sc, "outcome": outcome, "steps_of_faulty_simulator": [t for t, _ in steps]})
+    o.monitor_stats["remote_fault_cases"] = n_cases
+
+
+PROPERTIES["C13"] = {"run": _sched(_mon("C13"), faults=True, extra=_c13_remote), "assumptions": SCHED_ASSUME}
 
 
 def replay(pid: str, path: str) -> int:
